@@ -1,34 +1,90 @@
 (* C02: once shutdown has started the supervisor is never stuck and never time-locked (for
-   runnables that exit when signalled): some internal step, some step the implementation performs
+   runnables none of whose Run stays inside forever): some internal step, some step the implementation performs
    by itself, or some step a contract-abiding runnable owes (its Run/Stop/Reload/IsRunning call
    returning) is always enabled - never only the shutdown timeout. *)
 From Coq Require Import List NArith Bool Arith Lia.
 From GS Require Import LTS Supervisor SupAccept SupProps SupInv SupStop SupTrig SupGate SupOnce SupReload SupCensus.
 Import ListNotations.
 
-(* steps that do not depend on a free choice of the environment nor on a timer *)
-Definition is_progress (l : label) : bool :=
-  match l with
-  | LGateTimeout _ | LSdTimeout => false                         (* timers *)
-  | LCall _ _ | LEmit _ _ | LTrigR _ | LTrigS _ | LParentCancel | LSubscribe _ | LSubRecv _ _
-  | LSubCancel _ | LSubClosed _ | LSubRel _ | LPollBegin _ | LQuiet | LSnap _ => false
-  | LRunRet _ (Some _) => false                                  (* we only need the nil return *)
-  | LPoll _ false => false
-  | _ => true
+(* ---- whose step it is ----
+   Progress is stated per thread: a step of the shutdown body itself, or of a goroutine the body is
+   waiting for in its present position - not "some step of somebody". *)
+
+(* the shutdown body's own next step, or a step of what it is waiting for:
+   inside Stop(i) of a lifecycle-style runnable that is the goroutine of runnable i (startRunnable's store,
+   the call of Run, Run returning nil); in wg.Wait() it is any member of the WaitGroup: the runnable
+   goroutines, the reload manager (including the Reload() call it is inside of: its return is owed by the
+   runnable), the shutdown manager and the state-monitor manager.  Never a timer, never a step of Run()'s
+   own goroutine, of an API caller, of a monitor or of the environment. *)
+Definition body_step (s : state) (l : label) : bool :=
+  match sd s, l with
+  | SdNext (S j), LStopCall i => Nat.eqb i j
+  | SdIn i, LStopRet j => Nat.eqb i j
+  | SdIn i, LRunStore j | SdIn i, LRunCall j | SdIn i, LRunRet j None => Nat.eqb i j
+  | SdCancel, LSdCancel => true
+  | SdWait, LSdWgDone => true
+  | SdWait, LRunStore _ | SdWait, LRunCall _ | SdWait, LRunRet _ None | SdWait, LErrSend _ => true
+  | SdWait, LRmCtx | SdWait, LRmExit | SdWait, LReloadCall _ | SdWait, LReloadRet _ => true
+  | SdWait, LSdmExit | SdWait, LStmExit => true
+  | _, _ => false
   end.
 
-Definition good (c : config) : Prop :=
-  forall i, i < nrun c -> run_exit (spec c i) = ExitOnSignal.
+(* a step of Run()'s own goroutine; the return of an IsRunning() call only while Run() is inside one *)
+Definition main_step (s : state) (l : label) : bool :=
+  match l with
+  | LRunEntered | LLaunch _ | LGateDecide _ | LGateErr _ | LGateCtx _ | LReapErr | LReapCtx | LReapSig
+  | LMainShutdown | LMainReturn _ => true
+  | LPoll _ true => polling (aux s)
+  | _ => false
+  end.
 
-Definition can_progress (c : config) (s : state) : Prop :=
-  exists l, is_progress l = true /\ step c s l <> None.
+(* a Shutdown() caller's own step *)
+Definition caller_step (k : nat) (l : label) : bool :=
+  match l with
+  | LCallerGo k' => Nat.eqb k k'
+  | LRet k' OpShutdown => Nat.eqb k k'
+  | _ => false
+  end.
+
+Definition body_can_progress (c : config) (s : state) : Prop :=
+  exists l, body_step s l = true /\ step c s l <> None.
+Definition main_can_progress (c : config) (s : state) : Prop :=
+  exists l, main_step s l = true /\ step c s l <> None.
+Definition caller_can_progress (c : config) (s : state) (k : nat) : Prop :=
+  exists l, caller_step k l = true /\ step c s l <> None.
+
+(* the child contract of C02 ("Run returns after Stop or cancellation"): no runnable's Run may stay
+   inside forever.  A Run that also returns BY ITSELF - with nil, with a cancellation error or with a real
+   error, at any time (ExitFree: the failure triggers, start-up failures) - satisfies it. *)
+Definition good (c : config) : Prop :=
+  forall i, i < nrun c -> run_exit (spec c i) <> ExitNever.
+
+(* under the contract, the Run of a runnable that was told to stop (or whose context ended) may return *)
+Lemma good_may_return c s i :
+  good c -> i < nrun c -> get false (stop_called s) i || ctx_done s = true -> run_may_return c s i = true.
+Proof.
+  intros G Li H. unfold run_may_return. specialize (G i Li).
+  destruct (run_exit (spec c i)); [exact H|reflexivity|congruence].
+Qed.
+
+(* The one shape the C02 theorems exclude (recorded finding shutdown-before-run-blocks-forever): Shutdown()
+   closed the launch gate before Run() was entered - it then calls Stop() on EVERY registered runnable,
+   none of whose Run will ever be invoked - and some runnable has a lifecycle-style Stop (which blocks until
+   its Run has been invoked and has returned). *)
+Definition sdfirst_ok (c : config) (s : state) : Prop :=
+  sd_all (aux s) = true -> forall i, i < nrun c -> stop_style (spec c i) = StopNonBlocking.
+
+Lemma stop_k_le c s : length (rn s) = nrun c -> stop_k c s <= nrun c.
+Proof.
+  intros H. unfold stop_k. destruct (sd_all (aux s)); [lia|]. pose proof (launched_le s). lia.
+Qed.
 
 (* Stop() has been called on the runnable whose Stop() is in progress *)
 Definition InvSC (c : config) (s : state) : Prop :=
   length (stop_called s) = nrun c /\
   (forall i, sd s = SdIn i -> get false (stop_called s) i = true).
 
-Lemma InvSC_step c s l s' : InvK s -> InvPre c s -> InvSC c s -> step c s l = Some s' -> InvSC c s'.
+Lemma InvSC_step c s l s' : InvK c s -> InvPre c s -> InvSC c s -> step c s l = Some s' -> InvSC c s'.
 Proof.
   intros IK IP IS H. unfold step in H.
   destruct l; cbn [step0] in H; unfold start_shutdown, store_state in H;
@@ -41,18 +97,18 @@ Proof.
   all: repeat match goal with E : _ && _ = true |- _ => apply andb_true_iff in E as [? ?] end.
   all: repeat match goal with E : (_ =? _) = true |- _ => apply Nat.eqb_eq in E; subst end.
   all: try (intros ii Hi; injection Hi as <-; apply get_upd_same; rewrite (proj1 IS);
-            (* the stopped index is below launched <= n *)
+            (* the stopped index is below the stop range <= n *)
             unfold InvK in IK; match goal with E : sd _ = SdNext _ |- _ => rewrite E in IK end;
             destruct IK as [_ Hfr]; pose proof (stops_fr_le _ _ _ Hfr);
-            pose proof (launched_le s); rewrite (ip_len _ _ IP) in *; lia).
+            pose proof (stop_k_le c s (ip_len _ _ IP)); lia).
 Qed.
 
 Lemma InvSC_reachable c s : reachable_sup c s -> InvSC c s.
 Proof.
   intros Hr.
-  assert (G : InvPre c s /\ InvK s /\ InvSC c s).
+  assert (G : InvPre c s /\ InvK c s /\ InvSC c s).
   { revert s Hr. apply sup_inv.
-    - split; [apply InvPre_init|]. split; [reflexivity|]. split; [cbn; apply repeat_length|intros i H; discriminate H].
+    - split; [apply InvPre_init|]. split; [split; reflexivity|]. split; [cbn; apply repeat_length|intros i H; discriminate H].
     - intros s0 l s1 (IP & IK & IS) Hs. split; [eapply InvPre_step; eassumption|].
       split; [eapply InvK_step; eassumption|eapply InvSC_step; eassumption]. }
   apply G.
@@ -62,130 +118,193 @@ Qed.
 Lemma launch_idx_lt c s : 0 < nrun c -> reachable_sup c s -> forall i, main s = MLaunch i -> i < nrun c.
 Proof.
   intros Hn. revert s. apply (sup_inv c (fun s => forall i, main s = MLaunch i -> i < nrun c)).
-  - cbn. intros i H. injection H as <-. exact Hn.
-  - intros s l s' IH H. destruct (step_su_effect _ _ _ _ H) as [i Em Es Li Er Em' _ | i Em Em' Er _ | i Em Em' Er _ | Hm Er | Em Er].
+  - cbn. intros i H. discriminate H.
+  - intros s l s' IH H.
+    destruct (step_su_effect _ _ _ _ H) as [i Em Es Li Er Em' _ | i Em Em' Er _ | i Em Em' Er _ | Em Er | Hm _ _ Er | Em Er].
     + intros j Hj. destruct Em' as [E|E]; rewrite E in Hj; [discriminate Hj|].
       apply after_launch_cases in Hj as [[Hj L]|Hj]; [injection Hj as ->; exact L|discriminate Hj].
     + intros j Hj. rewrite Em' in Hj. apply after_launch_cases in Hj as [[Hj L]|Hj]; [injection Hj as ->; exact L|discriminate Hj].
     + intros j Hj. rewrite Em' in Hj. discriminate Hj.
+    + intros j Hj. destruct Em as [[_ E]|[_ E]]; rewrite E in Hj; [discriminate Hj|]. injection Hj as <-. exact Hn.
     + intros j Hj. exfalso. destruct (Hm j) as (X & _). contradiction.
     + intros j Hj. rewrite Em in Hj. auto.
 Qed.
 
-Ltac enabled l := exists l; split; [reflexivity|].
+Ltac enabled l := exists l; split; [cbn; rewrite ?Nat.eqb_refl; try reflexivity|].
 
-(* a launched goroutine goes on: startRunnable stores and broadcasts (Stateable), then calls Run *)
-Lemma launched_progress c s i : rn_at s i = RnLaunched -> i < nrun c -> can_progress c s.
+(* ---- the goroutine of runnable i can always move on until its Run has returned ---- *)
+(* its own next step: startRunnable's store, the call of Run, Run returning nil (under the contract, once
+   it was told to stop or its context ended), the send of its error *)
+Definition rn_own (i : nat) (l : label) : bool :=
+  match l with
+  | LRunStore j | LRunCall j | LRunRet j None | LErrSend j => Nat.eqb i j
+  | _ => false
+  end.
+
+Lemma rn_progress c s i :
+  good c -> i < nrun c ->
+  match rn_at s i with RnNot | RnDone => False | _ => True end ->
+  get false (stop_called s) i || ctx_done s = true ->
+  exists l, rn_own i l = true /\ step c s l <> None.
 Proof.
-  intros Er Li. apply Nat.ltb_lt in Li. destruct (stateable (spec c i)) eqn:St.
-  - enabled (LRunStore i). unfold step. cbn [step0]. rewrite Er, Li, St. discriminate.
-  - enabled (LRunCall i). unfold step. cbn [step0]. rewrite Er, Li, St. discriminate.
+  intros G Li Hi Hsig. pose proof Li as Lb. apply Nat.ltb_lt in Lb.
+  destruct (rn_at s i) eqn:Er; try contradiction.
+  - destruct (stateable (spec c i)) eqn:St.
+    + exists (LRunStore i). split; [cbn; apply Nat.eqb_refl|]. unfold step. cbn [step0]. rewrite Er, Lb, St. discriminate.
+    + exists (LRunCall i). split; [cbn; apply Nat.eqb_refl|]. unfold step. cbn [step0]. rewrite Er, Lb, St. discriminate.
+  - exists (LRunCall i). split; [cbn; apply Nat.eqb_refl|]. unfold step. cbn [step0]. rewrite Er, Lb. discriminate.
+  - exists (LRunRet i None). split; [cbn; apply Nat.eqb_refl|]. unfold step. cbn [step0]. rewrite Er, Lb.
+    rewrite (good_may_return c s i G Li Hsig). cbn. discriminate.
+  - exists (LErrSend i). split; [cbn; apply Nat.eqb_refl|]. unfold step. cbn [step0]. rewrite Er, Lb. discriminate.
 Qed.
 
-Lemma stored_progress c s i : rn_at s i = RnStored -> i < nrun c -> can_progress c s.
+(* some runnable goroutine is still alive *)
+Lemma wg_rn_alive (l : list rn_pc) :
+  forallb (fun p => match p with RnNot | RnDone => true | _ => false end) l = false ->
+  exists i, i < length l /\ match get RnDone l i with RnNot | RnDone => False | _ => True end.
 Proof.
-  intros Er Li. apply Nat.ltb_lt in Li.
-  enabled (LRunCall i). unfold step. cbn [step0]. rewrite Er, Li. discriminate.
+  unfold get. induction l as [|p l IH]; [discriminate|].
+  cbn [forallb]. intros Wz. apply andb_false_iff in Wz as [Hp|Hl].
+  - exists 0. split; [cbn; lia|]. cbn. destruct p; try discriminate Hp; exact Logic.I.
+  - destruct (IH Hl) as (i & Li & Hi). exists (S i). split; [cbn; lia|exact Hi].
+Qed.
+
+(* ---- the shutdown body up to the wait: the Stop loop and the cancel ---- *)
+(* needs no assumption on Run for non-blocking Stops; for a lifecycle-style Stop the hypothesis says that its
+   goroutine exists and that its Run obeys the contract *)
+Lemma stop_loop_progress c s :
+  reachable_sup c s ->
+  (forall i, sd s = SdIn i -> stop_style (spec c i) = StopUntilRunDone ->
+             rn_at s i <> RnNot /\ run_exit (spec c i) <> ExitNever) ->
+  match sd s with SdNext _ | SdIn _ | SdCancel => body_can_progress c s | _ => True end.
+Proof.
+  intros Hre Hblk.
+  pose proof (InvK_reachable _ _ Hre) as IK. pose proof (InvPre_reachable _ _ Hre) as IP.
+  pose proof (InvSC_reachable _ _ Hre) as [SC1 SC2].
+  unfold InvK in IK. unfold body_can_progress, body_step. destruct (sd s) as [|k|i| | |] eqn:Es; try exact Logic.I.
+  - (* SdNext k: the next Stop() call *)
+    destruct IK as [Hk _]. destruct k as [|j]; [lia|].
+    exists (LStopCall j). split; [apply Nat.eqb_refl|]. unfold step. cbn [step0]. rewrite Es, Nat.eqb_refl. discriminate.
+  - (* SdIn i: Stop(i) returns, possibly after Run(i) has been invoked and has returned *)
+    destruct IK as (l0 & Hfr & _). pose proof (stops_fr_le _ _ _ Hfr) as Hle.
+    assert (Li : i < nrun c) by (pose proof (stop_k_le c s (ip_len _ _ IP)); lia).
+    assert (Hret : stop_may_return c s i = true -> exists l, match l with LStopRet j => i =? j | LRunStore j | LRunCall j | LRunRet j None => i =? j | _ => false end = true /\ step c s l <> None).
+    { intros M. exists (LStopRet i). split; [apply Nat.eqb_refl|]. unfold step. cbn [step0]. rewrite Es, Nat.eqb_refl, M. discriminate. }
+    destruct (stop_style (spec c i)) eqn:St.
+    + apply Hret. unfold stop_may_return. now rewrite St.
+    + destruct (Hblk i eq_refl St) as [Hst Hex].
+      assert (Hmr : run_may_return c s i = true).
+      { unfold run_may_return. destruct (run_exit (spec c i)); [|reflexivity|congruence].
+        rewrite (SC2 i eq_refl). reflexivity. }
+      pose proof Li as Lb. apply Nat.ltb_lt in Lb.
+      destruct (rn_at s i) eqn:Er; try congruence.
+      * destruct (stateable (spec c i)) eqn:Sb.
+        -- exists (LRunStore i). split; [apply Nat.eqb_refl|]. unfold step. cbn [step0]. rewrite Er, Lb, Sb. discriminate.
+        -- exists (LRunCall i). split; [apply Nat.eqb_refl|]. unfold step. cbn [step0]. rewrite Er, Lb, Sb. discriminate.
+      * exists (LRunCall i). split; [apply Nat.eqb_refl|]. unfold step. cbn [step0]. rewrite Er, Lb. discriminate.
+      * exists (LRunRet i None). split; [apply Nat.eqb_refl|]. unfold step. cbn [step0]. rewrite Er, Lb, Hmr. cbn. discriminate.
+      * apply Hret. unfold stop_may_return. now rewrite St, Er.
+      * apply Hret. unfold stop_may_return. now rewrite St, Er.
+  - (* SdCancel *)
+    exists LSdCancel. split; [reflexivity|]. unfold step. cbn [step0]. rewrite Es. discriminate.
+Qed.
+
+(* inside Stop(i) of a lifecycle-style runnable: its goroutine exists unless Shutdown preceded Run() *)
+Lemma stopping_started c s i :
+  reachable_sup c s -> sd s = SdIn i -> sd_all (aux s) = false -> rn_at s i <> RnNot.
+Proof.
+  intros Hre Es Ha. pose proof (InvK_reachable _ _ Hre) as IK. pose proof (InvPre_reachable _ _ Hre) as IP.
+  unfold InvK in IK. rewrite Es in IK. destruct IK as (l0 & Hfr & _). pose proof (stops_fr_le _ _ _ Hfr) as Hle.
+  unfold stop_k in Hle. rewrite Ha in Hle.
+  destruct (ip_prefix _ _ IP) as (_ & A & _). apply A. lia.
+Qed.
+
+Lemma stopping_lt c s i : reachable_sup c s -> sd s = SdIn i -> i < nrun c.
+Proof.
+  intros Hre Es. pose proof (InvK_reachable _ _ Hre) as IK. pose proof (InvPre_reachable _ _ Hre) as IP.
+  unfold InvK in IK. rewrite Es in IK. destruct IK as (l0 & Hfr & _). pose proof (stops_fr_le _ _ _ Hfr) as Hle.
+  pose proof (stop_k_le c s (ip_len _ _ IP)). lia.
+Qed.
+
+(* ---- the wait for the goroutines ---- *)
+Lemma wait_progress c s :
+  reachable_sup c s -> good c -> sd s = SdWait -> body_can_progress c s.
+Proof.
+  intros Hre G Es. pose proof (InvPre_reachable _ _ Hre) as IP. pose proof (InvWg_reachable _ _ Hre) as [W1 _].
+  rewrite Es in W1.
+  assert (Hc : ctx_done s = true) by (unfold ctx_done; rewrite W1; reflexivity).
+  unfold body_can_progress, body_step. rewrite Es.
+  destruct (wg_zero s) eqn:Wz.
+  { exists LSdWgDone. split; [reflexivity|]. unfold step. cbn [step0]. rewrite Es, Wz. discriminate. }
+  unfold wg_zero in Wz.
+  apply andb_false_iff in Wz as [Wz|Wz]; [apply andb_false_iff in Wz as [Wz|Wz]; [apply andb_false_iff in Wz as [Wz|Wz]|]|].
+  - (* a runnable goroutine is still alive *)
+    destruct (wg_rn_alive _ Wz) as (i & Li & Hi). rewrite (ip_len _ _ IP) in Li.
+    destruct (rn_progress c s i G Li Hi) as (l & Hl & Hs); [rewrite Hc; apply orb_true_r|].
+    exists l. split; [|exact Hs]. destruct l; try discriminate Hl; try reflexivity. destruct e; [discriminate Hl|reflexivity].
+  - (* the reload manager *)
+    destruct (rm s) eqn:Er; try discriminate Wz.
+    + exists LRmCtx. split; [reflexivity|]. unfold step. cbn [step0]. rewrite Er, Hc. discriminate.
+    + exists (LReloadCall j). split; [reflexivity|]. unfold step. cbn [step0]. rewrite Er, Nat.eqb_refl. discriminate.
+    + exists (LReloadRet j). split; [reflexivity|]. unfold step. cbn [step0]. rewrite Er, Nat.eqb_refl. discriminate.
+    + exists LRmExit. split; [reflexivity|]. unfold step. cbn [step0]. rewrite Er. discriminate.
+  - exists LSdmExit. split; [reflexivity|]. unfold step. cbn [step0]. rewrite Wz, Hc. cbn. discriminate.
+  - exists LStmExit. split; [reflexivity|]. unfold step. cbn [step0]. rewrite Wz, Hc. cbn. discriminate.
 Qed.
 
 (* ---- the shutdown body can always move (without the timeout) until it is done ---- *)
 Theorem sup_c02_body_progress c s :
-  reachable_sup c s -> good c ->
-  match sd s with SdNot | SdDone => True | _ => can_progress c s end.
+  reachable_sup c s -> good c -> sdfirst_ok c s ->
+  match sd s with SdNot | SdDone => True | _ => body_can_progress c s end.
 Proof.
-  intros Hre G.
-  pose proof (InvK_reachable _ _ Hre) as IK. pose proof (InvPre_reachable _ _ Hre) as IP.
-  pose proof (InvSC_reachable _ _ Hre) as [SC1 SC2]. pose proof (InvWg_reachable _ _ Hre) as [W1 _].
-  pose proof (InvReload_reachable _ _ Hre) as [kk IR].
-  unfold InvK in IK. destruct (sd s) as [|k|i| | |] eqn:Es; try exact Logic.I.
-  - (* SdNext k: the next Stop() call *)
-    destruct IK as [Hk _]. destruct k as [|j]; [lia|].
-    enabled (LStopCall j). unfold step. cbn [step0]. rewrite Es, Nat.eqb_refl. discriminate.
-  - (* SdIn i: Stop(i) returns, possibly after Run(i) has been invoked and has returned *)
-    destruct IK as (l0 & Hfr & _). pose proof (stops_fr_le _ _ _ Hfr) as Hle.
-    assert (Li : i < nrun c) by (pose proof (launched_le s); rewrite (ip_len _ _ IP) in *; lia).
-    assert (Hst : rn_at s i <> RnNot).
-    { destruct (ip_prefix _ _ IP) as (_ & A & _). apply A. lia. }
-    destruct (stop_style (spec c i)) eqn:St.
-    + enabled (LStopRet i). unfold step. cbn [step0]. rewrite Es, Nat.eqb_refl. unfold stop_may_return. rewrite St.
-      cbn. discriminate.
-    + destruct (rn_at s i) eqn:Er; try congruence.
-      * eapply launched_progress; eassumption.
-      * eapply stored_progress; eassumption.
-      * enabled (LRunRet i None). unfold step. cbn [step0]. rewrite Er.
-        replace (i <? nrun c) with true by (symmetry; apply Nat.ltb_lt; exact Li).
-        unfold run_may_return. rewrite (G i Li), (SC2 i eq_refl). cbn. discriminate.
-      * enabled (LStopRet i). unfold step. cbn [step0]. rewrite Es, Nat.eqb_refl. unfold stop_may_return.
-        rewrite St, Er. cbn. discriminate.
-      * enabled (LStopRet i). unfold step. cbn [step0]. rewrite Es, Nat.eqb_refl. unfold stop_may_return.
-        rewrite St, Er. cbn. discriminate.
-  - (* SdCancel *)
-    enabled LSdCancel. unfold step. cbn [step0]. rewrite Es. discriminate.
-  - (* SdWait: either everything has finished, or someone can still move *)
-    assert (Hc : ctx_done s = true) by (unfold ctx_done; rewrite W1; reflexivity).
-    destruct (wg_zero s) eqn:Wz.
-    { enabled LSdWgDone. unfold step. cbn [step0]. rewrite Es, Wz. discriminate. }
-    unfold wg_zero in Wz.
-    apply andb_false_iff in Wz as [Wz|Wz]; [apply andb_false_iff in Wz as [Wz|Wz]; [apply andb_false_iff in Wz as [Wz|Wz]|]|].
-    + (* a runnable goroutine is still alive *)
-      assert (exists i, i < length (rn s) /\ match rn_at s i with RnNot | RnDone => False | _ => True end) as (i & Li & Hi).
-      { unfold rn_at, get. clear -Wz. induction (rn s) as [|p l IH]; [discriminate Wz|].
-        cbn [forallb] in Wz. apply andb_false_iff in Wz as [Hp|Hl].
-        - exists 0. split; [cbn; lia|]. cbn. destruct p; try discriminate Hp; exact Logic.I.
-        - destruct (IH Hl) as (i & Li & Hi). exists (S i). split; [cbn; lia|exact Hi]. }
-      rewrite (ip_len _ _ IP) in Li.
-      destruct (rn_at s i) eqn:Er; try contradiction.
-      * eapply launched_progress; eassumption.
-      * eapply stored_progress; eassumption.
-      * enabled (LRunRet i None). unfold step. cbn [step0]. rewrite Er.
-        replace (i <? nrun c) with true by (symmetry; apply Nat.ltb_lt; exact Li).
-        unfold run_may_return. rewrite (G i Li), Hc, orb_true_r. cbn. discriminate.
-      * enabled (LErrSend i). unfold step. cbn [step0]. rewrite Er.
-        replace (i <? nrun c) with true by (symmetry; apply Nat.ltb_lt; exact Li). discriminate.
-    + (* the reload manager *)
-      destruct (rm s) eqn:Er; try discriminate Wz.
-      * enabled LRmCtx. unfold step. cbn [step0]. rewrite Er, Hc. discriminate.
-      * enabled (LReloadCall j). unfold step. cbn [step0]. rewrite Er, Nat.eqb_refl. discriminate.
-      * enabled (LReloadRet j). unfold step. cbn [step0]. rewrite Er, Nat.eqb_refl. discriminate.
-      * enabled LRmExit. unfold step. cbn [step0]. rewrite Er. discriminate.
-    + enabled LSdmExit. unfold step. cbn [step0]. rewrite Wz, Hc. cbn. discriminate.
-    + enabled LStmExit. unfold step. cbn [step0]. rewrite Wz, Hc. cbn. discriminate.
+  intros Hre G Hok.
+  assert (Hblk : forall i, sd s = SdIn i -> stop_style (spec c i) = StopUntilRunDone ->
+                           rn_at s i <> RnNot /\ run_exit (spec c i) <> ExitNever).
+  { intros i Es St. pose proof (stopping_lt c s i Hre Es) as Li. split; [|exact (G i Li)].
+    apply (stopping_started c s i Hre Es). destruct (sd_all (aux s)) eqn:Ea; [|reflexivity].
+    rewrite (Hok Ea i Li) in St. discriminate St. }
+  pose proof (stop_loop_progress c s Hre Hblk) as B.
+  destruct (sd s) eqn:Es; try exact Logic.I; try exact B.
+  now apply wait_progress.
 Qed.
 
 (* ---- once the shutdown body is done, Run() can always move until it has returned ---- *)
+(* (no use is made of whether the timeout has fired) *)
 Theorem sup_c02_main_progress c s :
-  0 < nrun c -> reachable_sup c s -> sd s = SdDone -> sd_timed_out s = false ->
-  (exists r, main s = MReturned r) \/ can_progress c s.
+  0 < nrun c -> reachable_sup c s -> sd s = SdDone ->
+  main s = MNew \/ (exists r, main s = MReturned r) \/ main_can_progress c s.
 Proof.
-  intros Hn Hre Es Ht.
+  intros Hn Hre Es.
   pose proof (InvWg_reachable _ _ Hre) as [W1 _]. rewrite Es in W1.
   assert (Hc : ctx_done s = true) by (unfold ctx_done; rewrite W1; reflexivity).
-  pose proof (InvGate_reachable _ _ Hre) as IG.
+  unfold main_can_progress.
   destruct (main s) eqn:Em.
-  - right. destruct (Nat.ltb i (nrun c)) eqn:L.
-    + enabled (LLaunch i). unfold step. cbn [step0]. rewrite Em, Nat.eqb_refl, L, Es. cbn. discriminate.
+  - now left.
+  - right; right. exists LRunEntered. split; [reflexivity|]. unfold step. cbn [step0]. rewrite Em. discriminate.
+  - right; right. destruct (Nat.ltb i (nrun c)) eqn:L.
+    + exists (LLaunch i). split; [reflexivity|]. unfold step. cbn [step0]. rewrite Em, Nat.eqb_refl, L, Es. cbn. discriminate.
     + exfalso. apply Nat.ltb_ge in L. pose proof (launch_idx_lt c s Hn Hre i Em). lia.
-  - right. destruct (polling (aux s)) eqn:Ep.
-    + enabled (LPoll i true). unfold step. cbn [step0]. rewrite Em, Nat.eqb_refl. discriminate.
-    + enabled (LGateCtx i). unfold step. cbn [step0]. rewrite Em, Nat.eqb_refl, Hc, Ep. cbn.
+  - right; right. destruct (polling (aux s)) eqn:Ep.
+    + exists (LPoll i true). split; [exact Ep|]. unfold step. cbn [step0]. rewrite Em, Nat.eqb_refl. discriminate.
+    + exists (LGateCtx i). split; [reflexivity|]. unfold step. cbn [step0]. rewrite Em, Nat.eqb_refl, Hc, Ep. cbn.
       destruct (errq s); discriminate.
-  - right. enabled (LGateDecide i). unfold step. cbn [step0]. rewrite Em, Nat.eqb_refl.
+  - right; right. exists (LGateDecide i). split; [reflexivity|]. unfold step. cbn [step0]. rewrite Em, Nat.eqb_refl.
     destruct (errq s); discriminate.
-  - right. enabled LReapCtx. unfold step. cbn [step0]. rewrite Em, Hc. discriminate.
-  - right. enabled LMainShutdown. unfold step. cbn [step0]. rewrite Em. discriminate.
-  - right. enabled (LMainReturn r). unfold step. cbn [step0]. rewrite Em, Es.
+  - right; right. exists LReapCtx. split; [reflexivity|]. unfold step. cbn [step0]. rewrite Em, Hc. discriminate.
+  - right; right. exists LMainShutdown. split; [reflexivity|]. unfold step. cbn [step0]. rewrite Em. discriminate.
+  - right; right. exists (LMainReturn r). split; [reflexivity|]. unfold step. cbn [step0]. rewrite Em, Es.
     destruct r; try discriminate. rewrite Nat.eqb_refl. discriminate.
-  - left. eexists; reflexivity.
+  - right; left. eexists; reflexivity.
 Qed.
 
 (* a Shutdown() caller returns once the shutdown body is done *)
 Theorem sup_c02_caller_returns c s k cs :
-  sd s = SdDone -> find_caller k (callers s) = Some (OpShutdown, cs) -> can_progress c s.
+  sd s = SdDone -> find_caller k (callers s) = Some (OpShutdown, cs) -> caller_can_progress c s k.
 Proof.
-  intros Es Hf. destruct cs.
-  - enabled (LCallerGo k). unfold step. cbn [step0]. rewrite Hf. discriminate.
-  - enabled (LRet k OpShutdown). unfold step. cbn [step0]. rewrite Hf, Es. cbn. discriminate.
-  - enabled (LRet k OpShutdown). unfold step. cbn [step0]. rewrite Hf, Es. cbn. discriminate.
+  intros Es Hf. unfold caller_can_progress. destruct cs.
+  - exists (LCallerGo k). split; [cbn; apply Nat.eqb_refl|]. unfold step. cbn [step0]. rewrite Hf. discriminate.
+  - exists (LRet k OpShutdown). split; [cbn; apply Nat.eqb_refl|]. unfold step. cbn [step0]. rewrite Hf, Es. cbn. discriminate.
+  - exists (LRet k OpShutdown). split; [cbn; apply Nat.eqb_refl|]. unfold step. cbn [step0]. rewrite Hf, Es. cbn. discriminate.
 Qed.
 
 (* if some runnable never returns, the shutdown timeout ends the wait: it is enabled whenever the
